@@ -1,6 +1,7 @@
 package main
 
 import (
+	"go/types"
 	"fmt"
 	"go/constant"
 	"go/token"
@@ -504,6 +505,31 @@ func ruleComposeDecompose(w *World, r *RuleResult) {
 			}
 		}
 	}
+	// table-driven form: d.Form = table[form] with a package-level array filled by constants at initialisation
+	for _, st := range storesIn(com) {
+		if !strings.HasSuffix(w.exprOf(com, st.Addr).String(), ".Form") {
+			continue
+		}
+		ld, isLd := st.Val.(*ssa.UnOp)
+		if !isLd || ld.Op != token.MUL {
+			continue
+		}
+		ia, isIA := ld.X.(*ssa.IndexAddr)
+		if !isIA {
+			continue
+		}
+		g, isG := ia.X.(*ssa.Global)
+		if !isG || w.exprOf(com, stripWidening(ia.Index)).String() != "form" {
+			continue
+		}
+		if tab, ok := w.globalArrayInts(g); ok {
+			for i, v := range tab {
+				if _, have := b2f[i]; !have {
+					b2f[i] = v
+				}
+			}
+		}
+	}
 	for _, fname := range sortedKeys(forms) {
 		fv := forms[fname]
 		key := "form byte of " + fname
@@ -606,10 +632,51 @@ func ruleOneFormatter(w *World, r *RuleResult) {
 		key := "(*Decimal).Format | verb mapping"
 		// the byte passed to Append is a φ over the verb and the constants 'f' (for F) and 'G' (for v, s)
 		var bad []string
+		// the mapping may live in a helper that returns the Text format of a verb: on every path of the helper
+		// that decided `verb == K` the first result is the constant
+		helperMaps := func(verb, to int64) bool {
+			for _, g := range w.closureFuncs(f) {
+				if g == f || g.Signature.Results().Len() == 0 {
+					continue
+				}
+				paths, ok := enumPaths(g, 512)
+				if !ok {
+					continue
+				}
+				n, good := 0, true
+				for _, p := range paths {
+					hit := false
+					for _, d := range p.Decisions {
+						bo, isB := d.Cond.(*ssa.BinOp)
+						if !isB || bo.Op != token.EQL || !d.Val {
+							continue
+						}
+						if _, isP := stripWidening(bo.X).(*ssa.Parameter); !isP {
+							continue
+						}
+						if kk, isK := bo.Y.(*ssa.Const); isK && kk.Value != nil && ci(kk) == verb {
+							hit = true
+						}
+					}
+					if !hit {
+						continue
+					}
+					n++
+					if k, isK := phiOnPath(p.Ret.Results[0], p).(*ssa.Const); !isK || k.Value == nil || ci(k) != to {
+						good = false
+					}
+				}
+				if n > 0 && good {
+					return true
+				}
+			}
+			return false
+		}
+		viaHelper := helperMaps('F', 'f') && helperMaps('v', 'G') && helperMaps('s', 'G')
 		for _, c := range w.callsTo(f, "(*Decimal).Append") {
 			e := w.exprOf(f, c.Common().Args[2])
 			s := e.String()
-			if !strings.Contains(s, "102") || !strings.Contains(s, "71") {
+			if !viaHelper && (!strings.Contains(s, "102") || !strings.Contains(s, "71")) {
 				bad = append(bad, "Append format byte is "+s)
 			}
 		}
@@ -644,7 +711,7 @@ func ruleOneFormatter(w *World, r *RuleResult) {
 					}
 				}
 			}
-			if !ok {
+			if !ok && !helperMaps(wv.verb, wv.to) {
 				bad = append(bad, fmt.Sprintf("verb %q is not mapped to %q", rune(wv.verb), rune(wv.to)))
 			}
 		}
@@ -704,4 +771,72 @@ func (w *World) asciiLowerFn(g *ssa.Function) bool {
 		}
 	}
 	return cmpA && cmpZ && add
+}
+
+// globalArrayInts: the contents of a package-level array of integers that initialisation fills with
+// constants (a composite literal) and nothing else ever stores to.
+func (w *World) globalArrayInts(g *ssa.Global) (map[int64]int64, bool) {
+	pt, ok := g.Type().Underlying().(*types.Pointer)
+	if !ok {
+		return nil, false
+	}
+	arr, ok := pt.Elem().Underlying().(*types.Array)
+	if !ok {
+		return nil, false
+	}
+	out := map[int64]int64{}
+	for i := int64(0); i < arr.Len(); i++ {
+		out[i] = 0
+	}
+	found := false
+	for _, n := range w.Names {
+		f := w.Funcs[n]
+		for _, st := range storesIn(f) {
+			var idxBase ssa.Value
+			switch a := st.Addr.(type) {
+			case *ssa.Global:
+				if a != g {
+					continue
+				}
+				if !strings.HasPrefix(n, "init") {
+					return nil, false
+				}
+				ld, isLd := st.Val.(*ssa.UnOp)
+				if !isLd || ld.Op != token.MUL {
+					return nil, false
+				}
+				al, isAl := ld.X.(*ssa.Alloc)
+				if !isAl {
+					return nil, false
+				}
+				for _, st2 := range storesIn(f) {
+					ia, isIA := st2.Addr.(*ssa.IndexAddr)
+					if !isIA || ia.X != ssa.Value(al) {
+						continue
+					}
+					ki, okI := ia.Index.(*ssa.Const)
+					kv, okV := st2.Val.(*ssa.Const)
+					if !okI || !okV || kv.Value == nil {
+						return nil, false
+					}
+					out[ci(ki)] = ci(kv)
+				}
+				found = true
+				continue
+			case *ssa.IndexAddr:
+				idxBase = a.X
+				if idxBase != ssa.Value(g) {
+					continue
+				}
+				ki, okI := a.Index.(*ssa.Const)
+				kv, okV := st.Val.(*ssa.Const)
+				if !strings.HasPrefix(n, "init") || !okI || !okV || kv.Value == nil {
+					return nil, false
+				}
+				out[ci(ki)] = ci(kv)
+				found = true
+			}
+		}
+	}
+	return out, found
 }
